@@ -2,7 +2,7 @@ from specs import KEYS, CHECKS, unit
 
 KEYS['keepclient_c03'] = {'pkg': 'sdk/go/keepclient'}
 
-_RUN = {'timeout': 1500}
+_RUN = {'timeout': 3000}
 
 CHECKS['C03'] = {
     'ready': True,
@@ -31,13 +31,13 @@ CHECKS['C03'] = {
     ],
     'technique': 'property-based testing (rapid) with a scripted raw-HTTP fake Keep service and a request-log oracle',
     'units': [
-        unit('get', 'keepclient_c03', '^TestVerifC03Get$', {'shards': 5, 'checks': 250}, dict(_RUN, shards=5, checks=12000)),
-        unit('cache', 'keepclient_c03', '^TestVerifC03Cache$', {'shards': 4, 'checks': 120}, dict(_RUN, shards=4, checks=6000)),
+        unit('get', 'keepclient_c03', '^TestVerifC03Get$', {'shards': 5, 'checks': 250}, dict(_RUN, shards=5, checks=36000)),
+        unit('cache', 'keepclient_c03', '^TestVerifC03Cache$', {'shards': 4, 'checks': 120}, dict(_RUN, shards=4, checks=18000)),
         unit('cacheU', 'keepclient_c03', '^TestVerifC03Cache$', {'shards': 1, 'checks': 25}, dict(_RUN, shards=1, checks=300),
              env={'C03_UNSIZED_PCT': '40'}),
-        unit('file', 'keepclient_c03', '^TestVerifC03File$', {'shards': 3, 'checks': 250}, dict(_RUN, shards=3, checks=10000)),
-        unit('conc', 'keepclient_c03', '^TestVerifC03Concurrent$', {'shards': 2, 'checks': 100}, dict(_RUN, shards=2, checks=5000)),
-        unit('evict', 'keepclient_c03', '^TestVerifC03Evict$', {'shards': 3, 'checks': 60}, dict(_RUN, shards=4, checks=2500)),
+        unit('file', 'keepclient_c03', '^TestVerifC03File$', {'shards': 3, 'checks': 250}, dict(_RUN, shards=3, checks=30000)),
+        unit('conc', 'keepclient_c03', '^TestVerifC03Concurrent$', {'shards': 2, 'checks': 100}, dict(_RUN, shards=2, checks=15000)),
+        unit('evict', 'keepclient_c03', '^TestVerifC03Evict$', {'shards': 3, 'checks': 60}, dict(_RUN, shards=4, checks=7500)),
         unit('race', 'keepclient_c03', '^TestVerifC03Race$', {'shards': 1, 'checks': 12}, dict(_RUN, shards=1, checks=500),
              race=True),
         unit('oversize', 'keepclient_c03', '^TestVerifC03OversizeCL$', {'shards': 1}, {'shards': 1}, rapid=False),
